@@ -250,6 +250,13 @@ def run_case(ctx, case, model=True):
                         if gv + sv > 0 and not close(g, gv / (gv + sv) * pc, scale=cg.rated_power, tol=1e-9):
                             ctx.fail("predicate", "turbine-powers-do-not-follow-split-curves", f"step {t}: load {ld}: gas turbine {g} kW, the given curves give "
                                      f"{gv:.6g} / ({gv:.6g} + {sv:.6g}) x {pc} = {gv / (gv + sv) * pc}", where)
+                        # the same with the two given curves interpolated by the MODEL (Pchip.curve): no scipy on the judging side
+                        if model and ctx.model_available:
+                            mg = dec(ctx.model.call("pchip.curve", points=[[enc(a), enc(b)] for a, b in cs["gt_curve"]], at=[enc(ld)])[0])
+                            ms = dec(ctx.model.call("pchip.curve", points=[[enc(a), enc(b)] for a, b in cs["st_curve"]], at=[enc(ld)])[0])
+                            ctx.count("cogas_share_vs_modelled_curves", True)
+                            if mg + ms > 0 and not close(mg / (mg + ms) * dec(enc(pc)), g, scale=cg.rated_power):
+                                ctx.fail("correspondence", "cogas-split-modelled", f"step {t}: load {ld}: gas turbine {g} kW, the model's curves give {float(mg / (mg + ms)) * pc}", where)
     # a generator behind a rectifier: at the tabulated loads the machine's efficiency is generator x rectifier, each at its own load
     if kind == "genset" and case.get("rectifier"):
         g0 = plants.build_machine(case["generator"], TypePower.POWER_SOURCE, 1)
